@@ -85,12 +85,17 @@ class ProxyWorld:
         import tomli_w
 
         proxy = {"prefix": cfg["prefix"], "handler": "proxy", "upstream": self.upstream_url(cfg), "strip_prefix": cfg["strip"], "timeout": timeout}
+        if cfg.get("omit_defaults") and not cfg["strip"]:
+            del proxy["strip_prefix"]  # rely on the documented default (false)
         static = {"prefix": cfg.get("static_prefix", "/"), "handler": "static", "document_root": self.docroot}
         order = cfg["order"]
         locs = [proxy, static] if order == "proxy-first" else ([static, proxy] if order == "static-first" else [proxy])
         if cfg.get("second_proxy"):
             sp = cfg["second_proxy"]
             second = {"prefix": sp["prefix"], "handler": "proxy", "upstream": self.upstream_url(dict(cfg, base=sp.get("base", cfg["base"]))), "strip_prefix": sp["strip"], "timeout": timeout}
+            if cfg.get("omit_defaults") and not sp["strip"]:
+                del second["strip_prefix"]
+                del second["timeout"]
             locs = [proxy, second, static] if sp.get("position", "after") == "after" else [second, proxy, static]
         data = {"server": {"host": "127.0.0.1", "port": 1965, "document_root": self.docroot}, "rate_limit": {"enabled": False}, "locations": locs}
         path = os.path.join(self.base, "proxy.toml")
@@ -136,6 +141,9 @@ CONFIGS = [
     {"prefix": "/v1/", "strip": False, "base": "", "order": "proxy-first", "second_proxy": {"prefix": "/v2/", "strip": True}},
     {"prefix": "/v1/", "strip": True, "base": "", "order": "proxy-first", "second_proxy": {"prefix": "/v2/", "strip": False, "position": "before"}},
     {"prefix": "/api/", "strip": True, "base": "/b", "order": "proxy-first", "second_proxy": {"prefix": "/a/b/", "strip": False, "base": "/b"}},
+    # optional keys omitted (documented defaults) in a location that follows one which sets them
+    {"prefix": "/v1/", "strip": True, "base": "", "order": "proxy-first", "second_proxy": {"prefix": "/mirror/", "strip": False, "base": "/m"}, "omit_defaults": True},
+    {"prefix": "/mirror/", "strip": False, "base": "", "order": "proxy-first", "second_proxy": {"prefix": "/v1/", "strip": True, "position": "before"}, "omit_defaults": True},
 ]
 
 
@@ -275,7 +283,7 @@ def run(ctx):
                             ctx.count("monitor", "upstream_lines_checked")
                             got = up_recs[0].get("request_line") or b""
                             loc = matched_location(locs, info["path"])
-                            mp = map_path({"prefix": loc["prefix"], "strip": loc["strip_prefix"]}, info["path"])
+                            mp = map_path({"prefix": loc["prefix"], "strip": loc.get("strip_prefix", False)}, info["path"])
                             base_path = loc["upstream"].split("://", 1)[1].partition("/")[2]
                             exp = f"gemini://127.0.0.1:{world.upstream.port}{('/' + base_path).rstrip('/') if base_path else ''}{mp}"
                             if info["query"]:
